@@ -7,6 +7,12 @@
 (* fresh2 under another hash seed), and digests of the argument objects    *)
 (* before and after the call.  Step l is accepted iff                      *)
 (*     ret = fresh   /\   before = after   /\   fresh = fresh2             *)
+(* AMBIENT STATE.  amb0 / amb1 digest, before and after the call, the       *)
+(* interpreter-wide settings that later calls depend on (recursion limit,  *)
+(* numpy error handling): the stateless service of                         *)
+(* Session.tla has no such variable, so a call must leave them as found -   *)
+(* otherwise some later call (one that recurses deeply, one that overflows) *)
+(* answers differently than in a fresh interpreter.                        *)
 (* CALLER-OWNED OBJECTS.  Some menu calls name an object (ev.obj # ""): the *)
 (* caller keeps ONE dict / list / value table per name for the whole        *)
 (* history, overwrites its contents before the call (callers update and     *)
@@ -23,6 +29,7 @@ VARIABLES tid, l, hist, used, verdict
 T == Traces[tid]
 Clause(ev) ==
    IF ev.before # ev.after THEN "C15.argument_modified_by_the_call"
+   ELSE IF ev.amb0 # ev.amb1 THEN "C15.call_leaves_interpreter_wide_state_changed_that_later_calls_depend_on"
    ELSE IF ev.fresh # ev.fresh2 THEN "C15.result_depends_on_hash_seed"
    ELSE IF ev.ret # ev.fresh THEN
         (IF \E j \in 1..Len(hist) : hist[j] = ev.c THEN "C15.repeated_call_gives_a_different_result"
